@@ -621,7 +621,7 @@ def rest_method(rng, k, structs):
     path = rng.choice(['"/items"', '"/items/{id}"', "/plain/path", '"/a/{id}/b/{name}"'])
     params = [_ctx()] if rng.random() < 0.8 else []
     pool = [Param(["id"], tid("int")), Param(["name"], tid("string")), Param(["q"], ("map", tid("string"), tid("string"))),
-            Param(["p"], tstar(tid("int"))), Param(["a", "b"], tid("int")), Param([], tid("int")),
+            Param(["p"], tstar(tid("int"))), Param(["a", "b"], tid("int")),
             Param(["e"], tid("error")), Param(["u"], tid("Undefined9")), Param(["pe"], tstar(tid("error"))),
             Param(["av"], tid("any")), Param(["pa"], tstar(tid("any")))]
     params += rng.sample(pool, rng.randint(0, 2))
@@ -928,9 +928,9 @@ def d_embed_named(rng, c):
         for d in c.dests.values():
             if d[0] == "pkg" and d[2]:
                 d[2][0].decls.append(("type", [TSpec(u.name, ("struct", [Field(["W"], tid("int"))]))]))
-    else:
-        # the constructor template prints the embedded entry by shortName(), which is empty for some of these shapes
-        c.uncertain.append(u.name)
+    # both templates print an embedded entry by the name of its type, which is empty for some of these shapes
+    # (a pointer to an alias): whether the text formats is not known to the harness
+    c.uncertain.append(u.name)
     return u.name
 
 
@@ -1116,6 +1116,43 @@ def d_rest_two_maps(rng, c):
                             [Param(["q1"], M), Param(["x"], tid("int")), Param(["q3"], ("map", tid("string"), tid("any")))]])
     if rng.random() < 0.7:
         m.doc = ("req", rng.choice(["Get", "DELETE", "get"]), m.doc[2])
+    return t.name
+
+
+def d_rest_unnamed(rng, c):
+    """unnamed or blank parameters"""
+    f, t = rest_target(rng, c)
+    m = rng.choice(rest_methods(t))
+    k = rng.choice(["all_unnamed", "blank", "blank_group", "blank_ctx"])
+    if k == "all_unnamed":
+        for p in m.params:
+            p.names = []
+        if not m.params:
+            m.params.append(Param([], tid("int")))
+    elif k == "blank":
+        m.params.append(Param(["_"], rng.choice([tid("int"), ("arr", tid("int")), tid("string")])))
+    elif k == "blank_group":
+        m.params.append(Param(["x9", "_"], tid("int")))
+    else:
+        m.params = [Param(["_"], tsel("context", "Context"))] + [p for p in m.params if p.typ != tsel("context", "Context")]
+    for p in m.params:
+        if k != "all_unnamed" and not p.names:
+            p.names = ["n%d" % m.params.index(p)]
+    return t.name
+
+
+def d_rest_ptr_path(rng, c):
+    """a pointer parameter named like a placeholder of the path"""
+    f, t = rest_target(rng, c)
+    m = rng.choice(rest_methods(t))
+    path, names = rng.choice([('"/items/{id}"', ["id"]), ('"/a/{id}/b/{name}"', ["name"]), ("/x/{k_1}/{k2}", ["k2"]),
+                              ('"/a/{id"', ["id"]), ('"/a/{}/{id}"', ["id"]), ('"/a/{i-d}/{id}x"', ["id"])])
+    m.doc = ("req", m.doc[1], path)
+    m.params = [p for p in m.params if not set(p.names) & set(names)]
+    for p in m.params:
+        if not p.names:
+            p.names = ["n%d" % m.params.index(p)]
+    m.params.append(Param(names, tstar(tid(rng.choice(["int", "string"]))) if rng.random() < 0.8 else tid("int")))
     return t.name
 
 
@@ -1317,7 +1354,8 @@ PKG_DAMAGES = {
     "enum": [d_enum_alias, d_enum_nonint, d_enum_nonint, d_enum_struct_const, d_enum_bad_value, d_enum_bad_value,
              d_enum_undefined_type, d_enum_no_consts, d_enum_named_chain, d_type_wrong_kind],
     "rest": [d_rest_param, d_rest_param, d_rest_results, d_rest_results, d_rest_results, d_rest_bad_path, d_rest_ambiguous,
-             d_rest_doc, d_rest_embed, d_rest_embed, d_rest_wrong_kind, d_rest_needs_body, d_rest_two_maps],
+             d_rest_doc, d_rest_embed, d_rest_embed, d_rest_wrong_kind, d_rest_needs_body, d_rest_two_maps,
+             d_rest_unnamed, d_rest_unnamed, d_rest_ptr_path],
     "map": [d_map_manual, d_map_manual, d_map_manual, d_map_dest_type, d_map_dest_type, d_map_src_kind, d_map_dest_pkg,
             d_embed_named, d_embedded_universe, d_map_shootnew, d_map_shootnew],
 }
@@ -1716,7 +1754,8 @@ def fix_param_names(c):
 
 BASES = {"new": base_new, "enum": base_enum, "rest": base_rest, "map": base_map}
 FAILING.update({"new": [d_exported_getset, d_local_shadow], "enum": [d_enum_bad_value],
-                "rest": [d_rest_param, d_rest_results, d_rest_bad_path, d_rest_ambiguous, d_rest_needs_body, d_rest_two_maps],
+                "rest": [d_rest_param, d_rest_results, d_rest_bad_path, d_rest_ambiguous, d_rest_needs_body, d_rest_two_maps,
+                         d_rest_unnamed, d_rest_ptr_path],
                 "map": [d_map_manual]})
 
 
